@@ -211,6 +211,8 @@ def render(op, side):
         return s
     if k == 'X':
         return 'X'
+    if k == 'D':
+        return 'D ' + op[1]
     if k == 'F':
         return 'F ' + hx(op[1])
     if k == 'A':
@@ -314,7 +316,11 @@ def _canon_ip(s):
     return ('4:' if a.version == 4 else '6:') + a.packed.hex()
 
 
-PROTO_NAMES = {'Icmp': 1, 'Tcp': 6, 'Udp': 17, 'Icmpv6': 58}
+import json as _json
+try:
+    PROTO_NAMES = _json.load(open(os.path.join(os.path.dirname(os.path.abspath(__file__)), 'ipproto_names.json')))
+except Exception:   # pragma: no cover
+    PROTO_NAMES = {'Icmp': 1, 'Tcp': 6, 'Udp': 17, 'Icmpv6': 58}
 
 
 def _canon_transport(s):
@@ -322,9 +328,8 @@ def _canon_transport(s):
         return '-'
     if s in PROTO_NAMES:
         return str(PROTO_NAMES[s])
-    m = re.match(r'unknown \((\d+)\)', s)
-    if m:
-        return m.group(1)
+    if s == 'unknown':
+        return '-'
     return '?' + s
 
 
@@ -347,3 +352,50 @@ def parse_console_line(line):
     return 'EV %s %s %s %s %s %s %s %s %s' % (proto, verb, _canon_mac(cols[3]), _canon_mac(cols[4]),
                                               _canon_ip(cols[5]), _canon_ip(cols[6]), _canon_transport(cols[7]),
                                               cols[8] or '-', cols[9] or '-')
+
+
+LOGFMT_KEY = re.compile(r' (?=[a-z_0-9]+=)')
+
+
+def parse_logfmt_line(line):
+    """logfmt logger line -> canonical event string or None"""
+    if not line.startswith('ts='):
+        return None
+    kv = {}
+    for part in LOGFMT_KEY.split(line):
+        part = part.strip()
+        if not part:
+            continue
+        if '=' not in part:
+            return None
+        k, v = part.split('=', 1)
+        kv[k] = v
+    if not re.match(r'^\d+\.\d+$', kv.get('ts', '')) or 'proto' not in kv or 'verb' not in kv:
+        return None
+    proto = kv['proto']
+    if proto == 'arp':
+        op = re.match(r'ArpOperation\((\d+)\)', kv.get('op', ''))
+        a, b = ('mac_src', 'mac_dst'), ('ip_src', 'ip_dst')
+        if kv['verb'] == 'send':
+            # logfmt labels the ARP reply from the packet's point of view (mac_src = our MAC); the
+            # console logger and every other event use the client's point of view: canonicalise
+            a, b = ('mac_dst', 'mac_src'), ('ip_dst', 'ip_src')
+        return 'EV arp %s %s %s %s %s %s - -' % (kv['verb'], _canon_mac(kv.get(a[0])), _canon_mac(kv.get(a[1])),
+                                                 _canon_ip(kv.get(b[0])), _canon_ip(kv.get(b[1])), op.group(1) if op else '?')
+    return 'EV %s %s %s %s %s %s %s %s %s' % (proto, kv['verb'], _canon_mac(kv.get('mac_src')), _canon_mac(kv.get('mac_dst')),
+                                              _canon_ip(kv.get('ip_src')), _canon_ip(kv.get('ip_dst')),
+                                              _canon_transport(kv.get('transport')), kv.get('port_src') or '-', kv.get('port_dst') or '-')
+
+
+def parse_log_line(line, logger):
+    return parse_console_line(line) if logger == 'console' else parse_logfmt_line(line)
+
+
+def auth_macs(cfg):
+    s = {cfg['mac'], BCAST, bytes.fromhex('333300000001')}
+    for ip in cfg['self'] or []:
+        if len(ip) == 4:
+            s.add(bytes([1, 0, 0x5e, ip[1] & 0x7f, ip[2], ip[3]]))
+        else:
+            s.add(bytes([0x33, 0x33, 0xff]) + ip[13:16])
+    return s
